@@ -138,3 +138,40 @@ func waitQuiescent(bound time.Duration) bool {
 		}
 	}
 }
+
+// blockedSenders: library goroutines that are parked while handing an event to
+// a consumer-facing stage: inside (*_subscription).send (a publisher or the
+// controller waiting for a subscription's goroutine to take an event) or
+// inside a distribute function.  In kcache those hand-overs never wait for a
+// consumer: a subscription's goroutine is always back in its select, and its
+// own output is a non-blocking send.  Call at quiescence (waitQuiescent).
+func blockedSenders() []string {
+	buf := make([]byte, 1<<20)
+	for {
+		n := goruntime.Stack(buf, true)
+		if n < len(buf) {
+			buf = buf[:n]
+			break
+		}
+		buf = make([]byte, 2*len(buf))
+	}
+	var out []string
+	for i, g := range strings.Split(string(buf), "\n\n") {
+		if i == 0 {
+			continue
+		}
+		m := goroutineHeaderRe.FindStringSubmatch(g)
+		if m == nil {
+			continue
+		}
+		switch m[2] {
+		case "select", "chan send", "chan receive", "sleep":
+		default:
+			continue
+		}
+		if strings.Contains(g, "kcache.(*_subscription).send(") || strings.Contains(g, ").distributeEvent(") || strings.Contains(g, ").distributeEvents(") {
+			out = append(out, g)
+		}
+	}
+	return out
+}
